@@ -388,6 +388,15 @@ fn check_mapping_empty(
 
     let diff_idx = v_p_idx.diff(&v_n_idx)?;
     if !diff_idx.is_empty(ctx)? {
+        // An index signature over infinitely many keys is not one field: any value of `pos` extended by one more
+        // undeclared key whose value lies in `diff_idx` escapes `current_neg`, whatever its other keys hold
+        // (Record<string, string | number> is not covered by Record<string, string> | Record<string, number>).
+        // So `current_neg` removes nothing that the remaining negs could not also be asked about.
+        if let Some(idx) = &pos.indexed_properties
+            && !is_finite_string_set(&idx.key)
+        {
+            return check_mapping_empty(pos.clone(), rest_negs, ctx, is_map);
+        }
         let mut new_pos = (*pos).clone();
         // Update indexed_properties value
         // We need to preserve the key type of pos
